@@ -186,13 +186,14 @@ type TSummary struct {
 	// for single-result functions: the not-consumed returns split by nil-ness of the result
 	passWhenNil    KSet
 	passWhenNonNil KSet
+	nilWhenConsumed bool // some consuming return hands back the nil constant
 }
 
 func (s *TSummary) key() string {
 	if s == nil {
 		return "nil"
 	}
-	return fmt.Sprintf("%s|%v|%s|%s|%v|%v|%s|%s|%s", s.pass.Key(), s.passNil, s.first.Key(), s.exit.Key(), s.mayConsume, s.retFirstSnap, s.raisesNC.Key(), s.passWhenNil.Key(), s.passWhenNonNil.Key())
+	return fmt.Sprintf("%s|%v|%s|%s|%v|%v|%s|%s|%s", s.pass.Key(), s.passNil, s.first.Key(), s.exit.Key(), s.mayConsume, s.retFirstSnap, s.raisesNC.Key(), s.passWhenNil.Key(), s.passWhenNonNil.Key()) + fmt.Sprint(s.nilWhenConsumed)
 }
 
 type TKAI struct {
@@ -1214,6 +1215,11 @@ func (tk *TKAI) compute(ci *ctxInfo) *TSummary {
 				v := rs.ret.Results[i]
 				if !st.firstVals[v] {
 					s.retFirstSnap[i] = false
+				}
+				if nres == 1 && (isNilConst(v) || st.nilv[v]) {
+					s.nilWhenConsumed = true
+				} else if nres == 1 && refLike(v.Type()) && !st.nonnil[v] && !tk.definitelyNonNil(v, 0) {
+					s.nilWhenConsumed = true // cannot show the consuming return is non-nil
 				}
 			}
 		}
